@@ -93,6 +93,10 @@ def run_C10(ctx):
     drive_and_validate(ctx, [{"driver": "C10", "n": sz(ctx, 1600, 60000), "probes": 40}])
 
 
+def run_C08(ctx):
+    drive_and_validate(ctx, [{"driver": "C08", "n": sz(ctx, 1600, 60000), "probes": 32}])
+
+
 PROPS = {
     "C01": {"run": run_C01,
             "rule": "seeded generators (9 families) x 4 clip types x 4 fill rules x 4 entry points; an event is non-trivial "
@@ -143,6 +147,10 @@ PROPS = {
     "C10": {"run": run_C10,
             "rule": "open polylines of 1..6 points (duplicates, collinear runs) x 4 end types x 4 join types x deltas 0.5..15; "
                     "non-trivial: probes inside and outside the stroke"},
+    "C08": {"run": run_C08,
+            "rule": "patterns (convex, star-shaped non-convex, negatively oriented quads, arbitrary) x paths of 1..5 points "
+                    "(collinear runs) x sum/difference x closed/open; closed sums also with operands exchanged; non-trivial: "
+                    "probes off the parallelogram band with both answers"},
     "C02": {"run": run_C02,
             "rule": "as C01 with preserve-collinear / reverse-solution toggled; non-trivial as C01"},
 }
